@@ -88,6 +88,11 @@ pub struct RunCfg {
     pub crash_check: bool,
     /// seed for the schedule / fault streams of this run
     pub sched_seed: u64,
+    /// values are not judged (free-mode concurrent fault runs, where the
+    /// exposure model of KF-C01-1 cannot attribute repair passes to
+    /// requests): only progress, panics and the pipeline balance are
+    #[serde(default)]
+    pub no_values: bool,
 }
 
 #[derive(Clone, Debug, PartialEq, Eq, Hash, Serialize, Deserialize)]
